@@ -39,7 +39,7 @@ def _shard_ok(start, has_end, two):
         and two == ctx.S('two', two)
 
 
-def window(start: int, end: int, now: int, r1: int, r2: int, has_end: bool, two: bool) -> bool:
+def window(start: int, end: int, now: int, r1: int, r2: int, has_end: bool, two: bool, rev_ids: bool) -> bool:
     """
     pre: 0 <= start <= end <= now < B('D') * 86400
     pre: 0 <= r1 <= now and 0 <= r2 <= now and r1 <= r2
@@ -48,7 +48,17 @@ def window(start: int, end: int, now: int, r1: int, r2: int, has_end: bool, two:
     """
     ctx.begin()
     from playback.tape_cassettes.s3.s3_tape_cassette import S3TapeCassette
-    env = s3env.install(now=0)
+    # uuid1 ids do not sort by creation time (their leading bits wrap every few minutes): the id order of the two
+    # recordings is a solver variable, independent of their instants
+    class _Ids(object):
+        def __init__(self):
+            self.n = 0
+
+        def uuid1(self):
+            self.n += 1
+            k = (3 - self.n) if rev_ids else self.n
+            return type('U', (), {'hex': 'u%d' % k})
+    env = s3env.install(now=0, ids=_Ids())
     cas = S3TapeCassette('bkt', key_prefix='p', read_only=False)
     recs = []
     for t in ([r1, r2] if two else [r1]):
@@ -64,6 +74,8 @@ def window(start: int, end: int, now: int, r1: int, r2: int, has_end: bool, two:
     want = [rid for t, rid in recs if start <= t <= hi]
     if (hi // DAY) > (start // DAY) and (hi % DAY) < (start % DAY):
         ctx.mark('end-earlier-in-day-than-start')
+    if two and rev_ids:
+        ctx.mark('id-order-differs-from-time-order')
     ok = sorted(got) == sorted(want) and len(set(got)) == len(got)
     return ctx.done(ok, 'end-earlier-in-day-than-start')
 
